@@ -55,7 +55,8 @@ inductive Shape where
   | wrapper              -- `Wrapper()` made by `_maybe_wrap_new` around a callable that rejects attributes
   | callobj              -- a callable instance that accepts attributes (user's own, or made by new_callable)
   | value                -- not callable
-  | origAsync (d : Desc) -- an original `@asynq()` function / method / classmethod / staticmethod
+  | origAsync (d : Desc) -- an `@asynq()` function / method / classmethod / staticmethod (AsyncDecorator object): an
+                         -- original, or one the caller passes as `new` (`Repl.asyncFn`)
   deriving Repr, DecidableEq, Inhabited
 
 /-- Python's `callable(x)` -/
@@ -191,7 +192,14 @@ def conv (o : Obj) (via : Via) (c : Conv) (args : List Nat) (kw : List (Nat × N
         | none => failWith .typeError
       | _, false => invoke o args kw          -- the decorator's own .asynq/.asyncio: task around `fn` (= `new.__func__`)
     | _ => invoke o ((bindPrefix d via).getD [] ++ args) kw
-  | .origAsync d => invoke o ((bindPrefix d via).getD [] ++ args) kw
+  | .origAsync d =>
+    -- an AsyncDecorator object (decorators.py / qcore DecoratorBase.__get__): found on a class it yields a binder that
+    -- puts the instance (func, through an instance) / the class (classmethod) in front for `__call__`, `.asynq` and
+    -- `.asyncio` alike; reached directly (module attribute, instance `__dict__`) nothing is put in front.  When it is a
+    -- `new` that `__enter__` decorated (`attached`), `.asynq` / `.asyncio` are `_AsynqWrapper` / `_AsyncioWrapper`
+    -- around the object itself (an instance attribute shadows the method; the binder goes through
+    -- `self.decorator.asynq`): the same single run of the function with the same arguments.
+    invoke o ((bindPrefix d via).getD [] ++ args) kw
   | .value =>
     match c with
     | .sync => failWith .typeError            -- 'X' object is not callable
@@ -233,8 +241,10 @@ structure Defaults where
   objectAutospecNone : Bool
   deriving Repr, DecidableEq, Inhabited
 
-/-- the signatures as they are in the tree today -/
-def Defaults.current : Defaults := { patchAutospecNone := false, objectAutospecNone := false }
+/-- the signatures as they are in the tree today (mock_.py: `autospec=None` in `patch` and in `_patch_object`, since
+    the repair 60e77e0; asynq 1.6 had `autospec=False` in both = `Defaults.asynq16`) -/
+def Defaults.current : Defaults := { patchAutospecNone := true, objectAutospecNone := true }
+def Defaults.asynq16 : Defaults := { patchAutospecNone := false, objectAutospecNone := false }
 
 structure Env where
   targets : List TSpec
@@ -260,6 +270,9 @@ inductive Repl where
   | sealed                         -- callable that rejects attribute assignment (__slots__, builtin bound method)
   | value                          -- not callable
   | newCallable (callable : Bool)  -- new_callable=factory; whether what the factory returns is callable
+  | asyncFn (d : Desc)             -- an `@asynq()` function (d = func), `@asynq()` over classmethod / staticmethod: an
+                                   -- AsyncDecorator object - not `inspect.isfunction`, callable, accepts attributes,
+                                   -- and it has `__get__` (qcore DecoratorBase): it BINDS when found on a class
   deriving Repr, DecidableEq, Inhabited
 
 structure PSpec where
@@ -314,7 +327,8 @@ def maybeWrapNew (p : Nat) (s : PSpec) : Option Obj :=
       else if !r.acceptsAttrs then                      -- should_wrap: `return Wrapper()`: a NEW object per patcher
         some { id := .made p 0, shape := .wrapper, attached := false, callee := s.newId p, behav := s.behav }
       else                                              -- `return new`: the caller's object itself, shared or not
-        some { id := s.newId p, shape := .callobj, attached := false, callee := s.newId p, behav := s.behav }
+        some { id := s.newId p, shape := (match r with | .asyncFn d => .origAsync d | _ => .callobj),
+               attached := false, callee := s.newId p, behav := s.behav }
 
 structure Patcher where
   spec : PSpec
@@ -643,6 +657,8 @@ structure Watch where
   skip : Option (Nat × Nat)
   tainted : Bool                  -- the history left the well-nested discipline: nothing is claimed any more
   bind : Nat → Nat := fun s => s  -- what each name refers to, from the `rebind` operations the observer saw
+  entries : Nat → Nat := fun _ => 0  -- per patcher: how many objects its `__enter__`s have made so far (DEFAULT /
+                                  -- new_callable make a NEW object at every entry)
   deriving Inhabited
 
 def watchInit : Watch := { specs := fun _ => none, stack := [], active := [], skip := none, tainted := false }
@@ -657,6 +673,7 @@ def expectedPeeks (env : Env) (w : Watch) : List (Option Tok) :=
 def expectedPrefix (r : Repl) (via : Via) : Option (List Nat) :=
   match r with
   | .value | .newCallable false => none
+  | .asyncFn d => some ((bindPrefix d via).getD [])      -- an `@asynq()` function binds like the function it wraps
   | _ =>
     match r.desc? with
     | some d => bindPrefix d via
@@ -689,6 +706,25 @@ def stopallWatch (w : Watch) : List Nat → Option Watch
         stopallWatch { w with stack := eraseP p w.stack, active := w.active.erase p } ps
       else none
 
+/-- the object a successful `__enter__` / `start()` must install and return, for every replacement kind (`n` = how
+    many objects earlier entries of this patcher have made):
+    * DEFAULT: a MagicMock made at this entry; new_callable: what the factory made at this entry;
+    * plain function / classmethod / staticmethod object: the `asynq(sync_fn=new)(new)` pair made at construction;
+    * bound method / callable that takes no attributes: the `Wrapper()` made at construction;
+    * callable object, `@asynq()` function, non-callable: the caller's object ITSELF. -/
+def expectedTok (p n : Nat) (s : PSpec) : Tok :=
+  match s.repl with
+  | .default => { id := .made p n, tag := .mock }
+  | .newCallable _ => { id := .made p n, tag := .fresh }
+  | .func | .cmobj | .smobj => { id := .made p 0, tag := .pair }
+  | .bound | .sealed => { id := .made p 0, tag := .wrapper }
+  | .callobj | .asyncFn _ | .value => { id := s.newId p, tag := .asis }
+
+/-- does this entry make a new object? -/
+def Repl.makesFresh : Repl → Bool
+  | .default | .newCallable _ => true
+  | _ => false
+
 def enterWatch (env : Env) (w : Watch) (ob : Obs) (p : Nat) (isStart : Bool) : Except String Watch :=
   match w.specs p with
   | none =>
@@ -710,8 +746,12 @@ def enterWatch (env : Env) (w : Watch) (ob : Obs) (p : Nat) (isStart : Bool) : E
     else
       match ob.res with
       | .entered o =>
-        if s.repl == .value && o != { id := s.newId p, tag := .asis } then .error "noncallable-as-is" else
-        let w' := { w with stack := { p := p, t := s.target, o := o } :: w.stack, active := if isStart then w.active ++ [p] else w.active }
+        -- what is installed and returned is THE object the property promises for this replacement kind (not the
+        -- original left in place, not a copy or a wrapper of a callable object, not something nobody made)
+        if o != expectedTok p (w.entries p) s then
+          .error (if s.repl == .value then "noncallable-as-is" else "installed-object") else
+        let w' := { w with stack := { p := p, t := s.target, o := o } :: w.stack, active := if isStart then w.active ++ [p] else w.active,
+                           entries := if s.repl.makesFresh then upd w.entries p (w.entries p + 1) else w.entries }
         if ob.peeks == expectedPeeks env w' then .ok w' else .error "installed"
       | _ => .error "enter"
 
@@ -818,15 +858,20 @@ end AsynqModel.Mock
 
     mock_fn = super().__enter__()          # unittest.mock: the replacement IS installed now, the original saved
     if callable(mock_fn):
-        mock_fn.asynq = _AsynqWrapper(mock_fn) ...   # raises AttributeError / TypeError if it takes no attributes
+        try:
+            mock_fn.asynq = _AsynqWrapper(mock_fn) ...   # raises AttributeError / TypeError if it takes no attributes
+        except BaseException:
+            if not self.__exit__(*sys.exc_info()): raise   # (since 06c0ef8) undo the patch, then report the failure
 
 For an explicit `new`, `_maybe_wrap_new` has put such an object into a `Wrapper()` that takes attributes.  The product
 of `new_callable` is not wrapped.  If it is callable and takes no attributes (`__slots__`, an extension type) the
-second step raises AFTER the first one has installed it, and nobody calls `__exit__`: a `with` statement does not
-call `__exit__` when `__enter__` raised (PEP 343), `decoration_helper` registers a patching with its ExitStack only
+second step raises AFTER the first one has installed it, and nobody else would call `__exit__`: a `with` statement does
+not call `__exit__` when `__enter__` raised (PEP 343), `decoration_helper` registers a patching with its ExitStack only
 after `enter_context` returned, `start()` appends to `_active_patches` only after `__enter__` returned (so `stop()`
-answers None and `stopall()` does not see it).  The main model above has no such product (`Repl.newCallable` makes
-an attribute-accepting callable or a non-callable), which is why its theorems are unconditional. -/
+answers None and `stopall()` does not see it).  This model has these protocols as they are, one per activation style,
+and the `except` clause as a parameter (`undo`; `true` = the code as it is), so that the theorem depends on what each
+style does and the necessity of the clause is a theorem too.  The history model above has no such product
+(`Repl.newCallable` makes an attribute-accepting callable or a non-callable). -/
 namespace AsynqModel.Mock.EnterFail
 
 /-- what `new_callable()` hands back -/
@@ -851,21 +896,56 @@ structure Obs where
   after : Held            -- what the host holds when the whole statement / the stop() / stopall() is over
   deriving Repr, DecidableEq, Inhabited
 
-/-- the second half of `_PatchAsync.__enter__` -/
+/-- everything one activation touches -/
+structure St where
+  held : Held             -- `host.__dict__[name]`
+  saved : Bool            -- the patcher holds `temp_original` / `is_local` (set by `_patch.__enter__`, deleted by `__exit__`)
+  active : Bool           -- the patcher is in `_patch._active_patches`
+  deriving Repr, DecidableEq, Inhabited
+
+def St.init : St := { held := .orig, saved := false, active := false }
+
+/-- `_patch.__enter__` with `new_callable`: the product is made, the original remembered, `setattr(host, name, product)` -/
+def patchEnter (st : St) : St := { st with held := .product, saved := true }
+
+/-- `_patch.__exit__`: puts the original back and forgets the saved state; without saved state it raises
+    AttributeError and the host stays as it is -/
+def patchExit (st : St) : St := if st.saved then { st with held := .orig, saved := false } else st
+
+/-- the second half of `_PatchAsync.__enter__`: can the wrappers be attached? -/
 def attachOk : Product → Bool
   | .accepting => true        -- attributes set
   | .noncallable => true      -- `if callable(mock_fn)` is false: nothing to do
   | .rejecting => false       -- `mock_fn.asynq = ...` raises
 
-/-- the whole activation in the given style (every style ends the patch only if the activation came into being) -/
-def run (prod : Product) (_style : Style) : Obs :=
-  -- `_patch.__enter__`: held := product, temp_original := orig
-  if attachOk prod then
-    -- the block runs with the product in place; `__exit__` / `stop()` / `stopall()` put the original back
-    { entered := true, during := some .product, after := .orig }
-  else
-    -- (repaired) `__enter__` undoes the patch itself (`self.__exit__(*sys.exc_info())`) before the exception leaves it
-    { entered := false, during := none, after := .orig }
+/-- `_PatchAsync.__enter__`; the Boolean says whether it returned (false: the exception leaves it).
+    `undo`: the `except BaseException: self.__exit__(...)` clause is there (mock_.py today: yes) -/
+def asyncEnter (undo : Bool) (prod : Product) (st : St) : St × Bool :=
+  let st1 := patchEnter st
+  if attachOk prod then (st1, true)
+  else if undo then (patchExit st1, false)
+  else (st1, false)
+
+/-- the whole activation in the given style -/
+def run (undo : Bool) (prod : Product) (style : Style) : Obs :=
+  let (st, ok) := asyncEnter undo prod St.init
+  match style with
+  | .withBlock | .deco | .classDeco =>
+    -- `with` (PEP 343) / `decoration_helper`'s ExitStack / the same on a `copy()` of the patcher per test method:
+    -- `__exit__` is called (after the body) only if `__enter__` returned
+    if ok then { entered := true, during := some st.held, after := (patchExit st).held }
+    else { entered := false, during := none, after := st.held }
+  | .startStop | .startStopall =>
+    -- `start()`: `result = self.__enter__(); self._active_patches.append(self)`: in the list only if it returned
+    let st := { st with active := ok }
+    let during := if ok then some st.held else none
+    -- `stop()` (what a careful test does in tearDown, whether or not setUp got through): not in the list ->
+    -- returns None, `__exit__` is not called; `stopall()` stops exactly the patchers in the list
+    let st' := if st.active then patchExit { st with active := false } else st
+    { entered := ok, during := during, after := st'.held }
+
+/-- the code as it is -/
+def runCurrent (prod : Product) (style : Style) : Obs := run true prod style
 
 /-- C19 for this family: a patch that was active had the product in place, and when the statement is over - however
     it ended, also by an exception out of `__enter__` - the original is back -/
